@@ -225,6 +225,27 @@ def step (d : DS) (ws : List String) : DS × String :=
             s!"req={reqs} log={lg} data={dataSum out.evs} drop={dropStr out.evs}")
       | none => (d, "bad-op")
     | _, _ => (d, "bad-op")
+  | ["g.maybe"] =>
+    match maybeRange d.st with
+    | none => (d, "ok=0 res=- data=0 drop=none")
+    | some (o, l) =>
+      let fcs := fileChunks d.ps d.total d.files d.index o l
+      -- every server answers honestly
+      let rs : List Resp := fcs.map fun fc =>
+        if fc.pad then Resp.pad
+        else
+          let fileBase : Nat := match d.files with
+            | none => 0
+            | some fs => ((fs.getD fc.idx ⟨0, 0, false⟩).offset).toNat
+          let cr := s!"bytes {fc.offset}-{fc.offset + fc.length - 1}/{fc.filelength}"
+          Resp.http 206 [] cr.toList
+            [(patBytes d.seed (fileBase + fc.offset.toNat) fc.length.toNat, RErr.eof)]
+      let (st, out) := webseedGR addData fixedCode d.st fcs o l rs
+      if out.panic then ({ d with st := st }, "panic")
+      else
+        let res := reserve o l
+        ({ d with st := st },
+          s!"ok=1 res={res.headD 0}+{res.length} data={dataSum out.evs} drop={dropStr out.evs}")
   | ["h.fetch", offset, length, resp] =>
     match offset.toNat?, length.toNat?, resp.splitOn ";" with
     | some o, some l, [sts, cls, ln, jk, fin] =>
